@@ -1,0 +1,26 @@
+//go:build verif
+
+// Contracts for the verif build tag (read by /verif/govc; comment-only).
+package proto
+
+// gRPC stream endpoints are external: sending changes nothing the verified code reads.
+//
+//@ func OxiaLogReplication_ReplicateServer.Send
+//@ trusted
+//@ modifies nothing
+
+//@ func Append.GetEntry
+//@ property C03
+//@ pure
+//@ reads fields(Append)
+//@ ensures x != nil ==> result == x.Entry
+
+//@ func OxiaLogReplication_SendSnapshotServer.Recv
+//@ trusted
+//@ pure
+//@ nondet
+
+//@ func OxiaLogReplication_ReplicateServer.Context
+//@ trusted
+//@ pure
+//@ nondet
